@@ -17,7 +17,7 @@ KnownBuiltin ==
    "PAGENAME", "#len", "#if", "#switch", "formatnum", "plural", "#titleparts", "lc", "ns", "int"}
 NamesBuiltin == KnownBuiltin \cup {"#nosuchfunction", "#foo"}
 
-Numeric == {"NEG", "ZERO", "SEVEN", "HUGE", "WORD", "EMPTY"}
+Numeric == {"NEG", "ZERO", "SEVEN", "HUGE", "WORD", "EMPTY", "SUP", "ARDIG"}
 Vectors ==
   {<<>>} \cup {<<a>> : a \in Atoms}
   \cup {<<a, b>> : a \in {"WORD", "SEVEN", "EMPTY"}, b \in Numeric \cup {"FRAC", "BLANK", "EXPEMPTY", "PLUS"}}
